@@ -197,7 +197,7 @@ func runTwinWorld(t *testing.T, p *Plan, transform bool, tape []uint32, replay b
 	q.Replay = replay
 	obs := map[string][]*Emitted{}
 	w := runWorld(t, &q, func(w *World) {
-		st := &relayState{w: w, c: &q.Cfg, entries: flattenRoutes(q.Cfg.Routes), learned: map[string][]learnedAt{}, seenBranches: map[string]string{}, routeAnswers: map[string]string{}}
+		st := newRelayState(w, &q.Cfg)
 		for i := range q.Ops {
 			op := q.Ops[i]
 			if op.Kind != "msg" {
